@@ -2,31 +2,32 @@
 C06  Iterators return exactly the live snapshot in order, honouring options.
 
 Only property theorems, non-vacuity examples, `…_partial` and `…_fails_asis_…` theorems live here;
-helper lemmas are in `NoKVModel/Iter/*Lemmas.lean`, `DbMachine.lean`, `DbHeadline.lean`.
+helper lemmas are in `NoKVModel/Iter/*Lemmas.lean`, `DbMachine.lean`, `DbHeadline.lean`, `TxnStream.lean`,
+`TxnMachine.lean`, `TxnHeadline.lean`.
 
 Model: `NoKVModel/Iter/Model.lean` (iterator stack as written, flags in `IterCfg`);
 specification: `NoKVModel/Iter/Spec.lean` (`snapshotOf`, `specTxnList`, `specDbList`, `runSpec`:
 defined from the property statement over the abstract snapshot, no cursor mechanics).
 
-What is proved for EVERY well-formed source set, option record and cursor-operation sequence:
+What is proved for EVERY well-formed source set, option record and cursor-operation sequence
+(good configuration; the defects of the unchanged tree are hypotheses on flags, each with its
+negation on a corpus witness):
   * `C06_merge_first_wins`, `C06_merge_strictly_sorted` — the merge-iterator tree over sorted,
     internally duplicate-free sources is the sorted union with first-source-wins, in both directions;
   * `C06_concat_seek` — `ConcatIterator.Seek` over the disjoint tables of a level = `dropWhile` of the
     concatenation (both directions);
-  * `C06_db_iter` — HEADLINE for `DB.NewIterator` (good configuration; memtables, level-0 tables and
-    the concat iterator of a deeper level);
-  * `C06_txn_stream_partial` — for `Txn.NewIterator` only the stream level (see there what is missing);
-  * seven `C06_fails_asis_…` negations, one per defect of the unchanged tree, on the corpus witnesses.
-
-NOT proved (stated here so that nothing is claimed silently): the cursor-level theorem
-`C06_txn_iter` — for the good configuration `runTxn c (newTxnIt c db upd pend o) ops =
-specTxnRun db upd pend o ops` for all `db.WF`, `upd`, `pend`, `o`, `ops`.  Its statement is the exact
-analogue of `C06_db_iter`; the `lastKey` grouping of `advance`, the repaired reverse group rule,
-the pending-writes source and the reverse-`Seek` fallback loop are covered by the correspondence
-run and by the negation witnesses only.
+  * `C06_db_iter` — HEADLINE for `DB.NewIterator` (memtables, level-0 tables and the concat iterator
+    of a deeper level);
+  * `C06_txn_iter` — HEADLINE for `Txn.NewIterator` / `Txn.NewKeyIterator`: every transaction
+    (read timestamp, pending writes incl. deletes and expired entries), every option record
+    (forward/reverse, lower/upper bound, prefix or exact key, since-ts, one version per key or all
+    versions) and every sequence of `Rewind` / `Seek k` / `Next`;
+  * `C06_fails_asis_…` negations, one per defect found on the pinned tree, on the corpus witnesses
+    (`txnit-reverse-oldest-version` is still open: `revGroup = newest` is a hypothesis of
+    `C06_txn_iter`, no such code exists yet).
 -/
 import NoKVModel.Iter.DbHeadline
-import NoKVModel.Iter.TxnLemmas
+import NoKVModel.Iter.TxnHeadline
 
 namespace NoKV.Props.C06
 open NoKV NoKV.Iter
@@ -90,32 +91,29 @@ theorem C06_db_iter (c : IterCfg) (hc : c.DbGood) (db : DB) (hwf : db.WF) (asc :
   apply runDb_eq c hc db hwf asc lower upper ops
   exact ⟨rfl, rfl, rfl, rfl, by simp [DbInv, newDbIt, Sorted]⟩
 
-/-! ### transaction iterator: what is proved -/
+/-! ### transaction iterator -/
 
-/-- **partial** (stream level, read-only transaction).  For the good configuration and every
-well-formed state the internal stream a `TxnIterator` scans is the part of the snapshot visible at
-the read timestamp, in `compareKeys` order after `Rewind` (reversed for a reverse iterator), and
-its suffix from the seek key on after a forward `Seek`.
-MISSING for the full statement `C06_txn_iter`: the step from this stream to the yielded items
-(`advance`: bounds, prefix, since-ts, one-version-per-key grouping through `lastKey`, the reverse
-group rule), the pending-writes source of an update transaction, `Seek` clamping and the reverse
-fallback loop. -/
-theorem C06_txn_stream_partial (c : IterCfg) (hc : c.TxnGood) (db : DB) (hwf : db.WF) :
-    (∀ rev, mergedRewind c rev db.readTs (txnSources c db false []) =
-      if rev then ((dbSnapshot db).filter fun e => decide (e.ver ≤ db.readTs)).reverse
-      else (dbSnapshot db).filter fun e => decide (e.ver ≤ db.readTs)) ∧
-    (∀ t, mergedSeek c false db.readTs t (txnSources c db false []) =
-      ((dbSnapshot db).dropWhile fun e => ikLt e t).filter fun e => decide (e.ver ≤ db.readTs)) := by
-  have hv : visAt db.readTs = fun e => decide (e.ver ≤ db.readTs) := by
-    funext e
-    simp only [visAt, CmpOp.nat, CmpOp.eval]
-    by_cases h : e.ver ≤ db.readTs
-    · rcases Nat.lt_or_eq_of_le h with h1 | h1 <;> simp [h, h1]
-    · have h1 : ¬ e.ver < db.readTs := by omega
-      have h2 : ¬ e.ver = db.readTs := by omega
-      simp [h, h1, h2]
-  rw [← hv]
-  exact ⟨txn_mergedRewind c hc db hwf, txn_mergedSeek_fwd c hc db hwf⟩
+/-- **C06 for `Txn.NewIterator` / `Txn.NewKeyIterator` (headline).**  Good configuration; every
+well-formed LSM state (memtables ⊕ level-0 tables ⊕ level, any contents), every transaction
+(`update` or read-only, any list of pending writes — sets, deletes, expired entries — overlaid at
+the read timestamp), every option record `o` (direction, `[lower, upper)`, prefix / exact key,
+since-ts, one version per key or all versions) and EVERY sequence of `Rewind` / `Seek k` / `Next`
+in any order and number: after each call the iterator's current item (or invalidity) is the one of
+the specification's cursor over `specTxnList` — the entries of the transaction's snapshot
+(`txnSnapshot`: pending writes first, then the sources by recency, first source wins per internal
+key) that are visible (`version ≤ read ts`, `> since-ts`, inside the bounds, matching the prefix),
+one per user key at its newest visible version unless all versions are asked for, live (neither
+deleted nor expired — a dead newest version hides the key), in `compareKeys` order (reversed for a
+reverse iterator); `Seek k` = first item with key `≥ k` (`≤ k` in reverse), an empty `k` = `Rewind`.
+
+`KeysOK`: user keys are non-empty — `Txn.modify`, `DB.Set`, `SetVersionedEntry`, `lsm.Set` reject an
+empty key (checked on the real code through the harness); `advance` compares `len(lastKey) > 0`,
+so an empty user key would not be de-duplicated. -/
+theorem C06_txn_iter (c : IterCfg) (hc : c.TxnGood) (db : DB) (hwf : db.WF) (upd : Bool) (pend : List Write)
+    (hk : KeysOK db pend) (o : Opts) (ops : List CurOp) :
+    runTxn c (newTxnIt c db upd pend o) ops = specTxnRun db upd pend o ops := by
+  apply runTxn_eq c hc db hwf upd pend hk o ops
+  exact ⟨rfl, rfl, rfl, rfl, by simp [newTxnIt, Sorted, G, gF, gR]⟩
 
 /-! ### non-vacuity -/
 
@@ -136,6 +134,34 @@ example : runDb IterCfg.good (newDbIt IterCfg.good dbExample true [] []) [.seek 
     [some ⟨[0x61], 1, [0x76], false, false⟩, some ⟨[0x70], 1, [0x76, 0x31], false, false⟩,
      some ⟨[0x70, 0x71], 2, [0x76], false, false⟩, some ⟨[0x7a], 1, [0x7a], false, false⟩,
      some ⟨[0x7a, 0x7a], 1, [0x7a], false, false⟩] := by
+  decide
+
+/-- pending writes of the iterating transaction: overwrite `pq`, delete `a`, add `b` -/
+def pendExample : List Write :=
+  [⟨[0x70, 0x71], [0x6e, 0x65, 0x77], false, false⟩, ⟨[0x61], [], true, false⟩, ⟨[0x62], [0x62], false, false⟩]
+
+def opsExample : List CurOp :=
+  [.seek [0x61], .next, .next, .rewind, .next, .seek [0x7a, 0x61], .next, .next, .seek [0x71], .next]
+
+example : KeysOK dbExample pendExample := by unfold KeysOK; decide
+
+/-- forward, mixing `Seek` / `Next` / `Rewind`: the pending delete hides `a`, the committed tombstone
+`p@3` hides `p@1`, the pending write of `pq` replaces `pq@2`, `Seek` beyond the last key and `Next`
+past the end are invalid -/
+example : runTxn IterCfg.good (newTxnIt IterCfg.good dbExample true pendExample {}) opsExample =
+    [some ⟨[0x62], 3, [0x62], false, false⟩, some ⟨[0x70, 0x71], 3, [0x6e, 0x65, 0x77], false, false⟩,
+     some ⟨[0x7a], 1, [0x7a], false, false⟩, some ⟨[0x00], 1, [0x30], false, false⟩, some ⟨[0x62], 3, [0x62], false, false⟩,
+     some ⟨[0x7a, 0x7a], 1, [0x7a], false, false⟩, none, none, some ⟨[0x7a], 1, [0x7a], false, false⟩,
+     some ⟨[0x7a, 0x7a], 1, [0x7a], false, false⟩] := by
+  decide
+
+/-- reverse with an upper bound, same calls -/
+example : runTxn IterCfg.good (newTxnIt IterCfg.good dbExample true pendExample { reverse := true, upper := [0x7a, 0x7a] })
+      opsExample =
+    [some ⟨[0x00], 1, [0x30], false, false⟩, none, none, some ⟨[0x7a], 1, [0x7a], false, false⟩,
+     some ⟨[0x70, 0x71], 3, [0x6e, 0x65, 0x77], false, false⟩, some ⟨[0x7a], 1, [0x7a], false, false⟩,
+     some ⟨[0x70, 0x71], 3, [0x6e, 0x65, 0x77], false, false⟩, some ⟨[0x62], 3, [0x62], false, false⟩,
+     some ⟨[0x70, 0x71], 3, [0x6e, 0x65, 0x77], false, false⟩, some ⟨[0x62], 3, [0x62], false, false⟩] := by
   decide
 
 /-! ### the unchanged tree violates the property: negations on the corpus witnesses -/
